@@ -289,6 +289,12 @@ func tryFindPrefix(node *RegexNode, vsb *bytes.Buffer) bool {
 				// the previously seen branches.
 				// (only the part that is still common to all earlier branches counts)
 				addedLength = commonPrefixLen(vsbSlice[:addedLength], alternateSb.Bytes())
+
+				// The comparison is byte-wise: two different runes can share their leading
+				// UTF-8 bytes (é and è, 中 and 与). Only whole runes are a common prefix.
+				for addedLength > 0 && addedLength < len(vsbSlice) && !utf8.RuneStart(vsbSlice[addedLength]) {
+					addedLength--
+				}
 			}
 
 			// Then cull back on what was added based on the other branches.
